@@ -1170,7 +1170,11 @@ int KSI_AbstractNetworkClient_new(KSI_CTX *ctx, KSI_NetworkClient **client) {
 	}
 
 	tmp->ctx = ctx;
+	tmp->impl = NULL;
 	tmp->implFree = NULL;
+	tmp->aggregator = NULL;
+	tmp->extender = NULL;
+	tmp->publicationsFile = NULL;
 	tmp->sendExtendRequest = NULL;
 	tmp->sendPublicationRequest = NULL;
 	tmp->sendSignRequest = NULL;
